@@ -47,7 +47,8 @@ func (s *PSlice) Add(addrs ...boson.Address) {
 	for i, addr := range addrs {
 		po := s.po(addr.Bytes())
 		addrPo = append(addrPo, po)
-		if e, _ := s.index(addr, po); e {
+		if e, _ := s.index(addr, po); e || addr.MemberOf(addrs[:i]) {
+			// already stored, or listed earlier in this batch
 			exists[i] = true
 		} else {
 			binChange[po]++
